@@ -564,6 +564,95 @@ fn replay_bom(_args: &[String]) -> i32 {
     0
 }
 
+/// MSI stream-name mangling (independent of the library): table streams start with U+4840
+fn mangle_table_name(name: &str) -> String {
+    fn b64(c: char) -> Option<u32> {
+        match c {
+            '0'..='9' => Some(c as u32 - '0' as u32),
+            'A'..='Z' => Some(10 + c as u32 - 'A' as u32),
+            'a'..='z' => Some(36 + c as u32 - 'a' as u32),
+            '.' => Some(62),
+            '_' => Some(63),
+            _ => None,
+        }
+    }
+    let cs: Vec<char> = name.chars().collect();
+    let mut out = String::from('\u{4840}');
+    let mut i = 0;
+    while i < cs.len() {
+        if let Some(a) = b64(cs[i]) {
+            if i + 1 < cs.len() {
+                if let Some(b) = b64(cs[i + 1]) {
+                    out.push(char::from_u32(0x3800 + (b << 6) + a).unwrap());
+                    i += 2;
+                    continue;
+                }
+            }
+            out.push(char::from_u32(0x4800 + a).unwrap());
+        } else {
+            out.push(cs[i]);
+        }
+        i += 1;
+    }
+    out
+}
+
+/// C09 probe: `zerorc` -- a structure-aware corruption named by the property: one pool entry's
+/// reference count is set to zero while its text stays in the string data.  The package must
+/// still open, and a mutating operation followed by a flush must return a value or an error --
+/// not panic.
+fn replay_zerorc(_args: &[String]) -> i32 {
+    use msi::{Column, Insert};
+    use std::io::{Read, Seek, SeekFrom, Write};
+    panic::set_hook(Box::new(|_| {}));
+    let marker = "a-string-of-exactly-33-characters";
+    assert_eq!(marker.len(), 33);
+    let bytes: Vec<u8> = {
+        let mut p = Package::create(PackageType::Installer, Cursor::new(Vec::new())).unwrap();
+        p.create_table("T", vec![Column::build("K").primary_key().int16(), Column::build("S").nullable().string(64)]).unwrap();
+        p.insert_rows(Insert::into("T").row(vec![Value::Int(1), Value::Str(marker.into())])).unwrap();
+        p.into_inner().unwrap().into_inner()
+    };
+    // patch `_StringPool`: the entry of length 33 gets reference count 0 (its text stays in `_StringData`)
+    let patched: Vec<u8> = {
+        let mut comp = cfb::CompoundFile::open(Cursor::new(bytes)).unwrap();
+        let name = mangle_table_name("_StringPool");
+        let mut pool = Vec::new();
+        comp.open_stream(&name).unwrap().read_to_end(&mut pool).unwrap();
+        let mut off = 4;
+        let mut hit = false;
+        while off + 4 <= pool.len() {
+            let len = u16::from_le_bytes([pool[off], pool[off + 1]]);
+            if len == 33 { pool[off + 2] = 0; pool[off + 3] = 0; hit = true; break; }
+            off += 4;
+        }
+        if !hit { println!("REPLAY family=zerorc verdict=ok (marker entry not found; probe not applicable)"); return 0; }
+        let mut st = comp.open_stream(&name).unwrap();
+        st.seek(SeekFrom::Start(0)).unwrap();
+        st.write_all(&pool).unwrap();
+        st.flush().unwrap();
+        drop(st);
+        comp.flush().unwrap();
+        comp.into_inner().into_inner()
+    };
+    let r = panic::catch_unwind(move || -> Result<(), String> {
+        let mut p = Package::open(Cursor::new(patched)).map_err(|e| format!("open: {e}"))?;
+        p.insert_rows(Insert::into("T").row(vec![Value::Int(2), Value::Str("a brand new string".into())])).map_err(|e| format!("insert: {e}"))?;
+        p.flush().map_err(|e| format!("flush: {e}"))?;
+        Ok(())
+    });
+    match r {
+        Err(_) => {
+            println!("REPLAY family=zerorc corruption=\"pool entry with reference count 0 and text left in the string data\" verdict=VIOLATED (open succeeded, then insert_rows + flush PANICKED)");
+            1
+        }
+        Ok(res) => {
+            println!("REPLAY family=zerorc result={res:?} verdict=ok (a value or an error, no panic)");
+            0
+        }
+    }
+}
+
 fn main() {
     let args: Vec<String> = std::env::args().skip(1).collect();
     if args.is_empty() {
@@ -582,6 +671,7 @@ fn main() {
         "rowlimit" => replay_rowlimit(&args[1..]),
         "faults" => replay_faults(&args[1..]),
         "bom" => replay_bom(&args[1..]),
+        "zerorc" => replay_zerorc(&args[1..]),
         _ => 2,
     };
     std::process::exit(rc);
